@@ -52,6 +52,19 @@ def _part_init(self, *a, **kw):
 
 Part.__init__ = _part_init
 
+import simprocesd.model.resource_manager as _rmmod  # noqa: E402
+_orig_rr_init = _rmmod.ReservedResources.__init__
+
+
+def _rr_init(self, resource_manager, reserved_resources):
+    _orig_rr_init(self, resource_manager, reserved_resources)
+    r = impl.CTX
+    if r is not None and hasattr(r, 'all_resv'):
+        r.all_resv.append(self)
+
+
+_rmmod.ReservedResources.__init__ = _rr_init
+
 _orig_wo_init = maintainer_mod._WorkOrder.__init__
 
 
@@ -205,6 +218,7 @@ class FullRunner(Runner):
         self.maint_stack = []
         self.wo_seq = {}
         self.records = []
+        self.all_resv = []
         self.n_assets = 0
         self.names = {}
         env = self.env
@@ -706,6 +720,13 @@ class FullRunner(Runner):
                 tag = f's{cb.k}' if hasattr(cb, 'k') else (f'p{self.didx(s)}' if s is not None else '?')
                 items.append(self.req_str(req) + '@' + tag)
             o.append('wq ' + ','.join(items))
+        else:
+            o.append('wq -')
+        sums = {name: 0 for name in rm._resources}
+        for rr in self.all_resv:
+            for name, a in rr._reserved_resources.items():
+                sums[name] = sums.get(name, 0) + a
+        o.append('hsum 0 ' + jn(';', (f'{self.rid(n)}:{ival(sums[n])}' for n in rm._resources)))
         for h, v in enumerate(self.vars):
             o.append(f'h {h} ' + ('none' if v is None else '[' + self.req_str(v._reserved_resources) + ']'))
         for i, d in enumerate(self.devs):
